@@ -1,1 +1,106 @@
-def hello := "world"
+/-
+  Rv.Basic — byte strings and the few `strings`/`strconv` functions of Go's
+  standard library that the reservoir models use.  Core Lean only.
+
+  A Go `string` is modelled as `List Char` where every `Char` stands for one
+  BYTE (code point 0..255).  The harness hex-encodes every string on the op
+  line so that arbitrary bytes survive the line protocol.
+-/
+namespace Rv
+
+abbrev Str := List Char
+
+def s (x : String) : Str := x.toList
+
+/-- ASCII digit test, as Go's `ch < '0' || ch > '9'` negated. -/
+def isDigit (c : Char) : Bool := '0' ≤ c && c ≤ '9'
+
+def digitVal (c : Char) : Nat := c.toNat - 48
+
+/-- Go `strings.TrimSpace` restricted to bytes: the ASCII white space set of
+    `unicode.IsSpace` below 0x80 is `\t \n \v \f \r ' '`; 0x85 and 0xA0 are
+    Latin-1 spaces only when they appear as *runes*, which a byte string that
+    is valid UTF-8 cannot contain as single bytes.  The harness never sends
+    non-ASCII bytes to functions modelled with `trimSpace`. -/
+def isSpace (c : Char) : Bool :=
+  c = ' ' || c = '\t' || c = '\n' || c = '\r' || c.toNat = 11 || c.toNat = 12
+
+def trimLeft : Str → Str
+  | [] => []
+  | c :: cs => if isSpace c then trimLeft cs else c :: cs
+
+def trimSpace (x : Str) : Str := (trimLeft (trimLeft x).reverse).reverse
+
+/-- ASCII lower-casing (Go `strings.ToLower` on ASCII input). -/
+def lowerChar (c : Char) : Char :=
+  if 'A' ≤ c && c ≤ 'Z' then Char.ofNat (c.toNat + 32) else c
+
+def toLower (x : Str) : Str := x.map lowerChar
+
+/-- `strings.CutPrefix`. -/
+def cutPrefix : Str → Str → Option Str
+  | x, [] => some x
+  | [], _ :: _ => none
+  | c :: cs, p :: ps => if c = p then cutPrefix cs ps else none
+
+/-- split at the first occurrence of `sep`: `strings.SplitN(x, sep, 2)` /
+    `strings.Cut`. -/
+def cutAt (sep : Char) : Str → Option (Str × Str)
+  | [] => none
+  | c :: cs =>
+    if c = sep then some ([], cs)
+    else match cutAt sep cs with
+      | none => none
+      | some (a, b) => some (c :: a, b)
+
+/-- `strings.Split(x, sep)` for a one-byte separator. Never returns `[]`. -/
+def splitOn (sep : Char) : Str → List Str
+  | [] => [[]]
+  | c :: cs =>
+    if c = sep then [] :: splitOn sep cs
+    else match splitOn sep cs with
+      | [] => [[c]]
+      | h :: t => (c :: h) :: t
+
+/-- decimal value of a digit string by Horner's rule (no check). -/
+def decVal (ds : Str) : Nat := ds.foldl (fun a c => a * 10 + digitVal c) 0
+
+def allDigits (ds : Str) : Bool := ds.all isDigit
+
+/-- decimal printing of a natural number (`strconv.Itoa` for n ≥ 0). -/
+def toDecAux : Nat → Nat → Str → Str
+  | 0, _, acc => acc
+  | fuel + 1, n, acc =>
+    let acc' := Char.ofNat (48 + n % 10) :: acc
+    if n / 10 = 0 then acc' else toDecAux fuel (n / 10) acc'
+
+def toDec (n : Nat) : Str := toDecAux (n + 1) n []
+
+def intToDec (i : Int) : Str :=
+  if i < 0 then '-' :: toDec i.natAbs else toDec i.natAbs
+
+/-! ### hex transport encoding used by the line protocol -/
+
+def hexVal (c : Char) : Option Nat :=
+  if '0' ≤ c && c ≤ '9' then some (c.toNat - 48)
+  else if 'a' ≤ c && c ≤ 'f' then some (c.toNat - 87)
+  else if 'A' ≤ c && c ≤ 'F' then some (c.toNat - 55)
+  else none
+
+def unhex : Str → Option Str
+  | [] => some []
+  | [_] => none
+  | a :: b :: rest =>
+    match hexVal a, hexVal b, unhex rest with
+    | some x, some y, some r => some (Char.ofNat (x * 16 + y) :: r)
+    | _, _, _ => none
+
+def hexDigit (n : Nat) : Char :=
+  if n < 10 then Char.ofNat (48 + n) else Char.ofNat (87 + n)
+
+def hex (x : Str) : Str :=
+  x.flatMap (fun c => [hexDigit (c.toNat / 16 % 16), hexDigit (c.toNat % 16)])
+
+def maxI64 : Nat := 9223372036854775807
+
+end Rv
